@@ -967,7 +967,7 @@ fn try_decode(ch: &mut Chooser, ctx: &mut Ctx, w: &mut World, g: usize) -> bool 
     // safety: exactly the originals not delivered, byte for byte (C01, C11)
     for (i, sh) in &restored {
         if sh != &w.stripes[s].originals[*i] {
-            let mut props = vec!["C01", "C11"];
+            let mut props = vec!["C01", "C11", "C08"];
             if rd.rounds > 1 {
                 props.push("C05");
             }
